@@ -211,6 +211,7 @@ typedef struct {
 } srv_plan_t;
 
 static void (*srv_built_hook)(uint32_t serial, const sdns_query_t *q, const srv_plan_t *pl, int srvidx);
+static void (*srv_cookie_built_hook)(uint32_t serial, const sdns_query_t *q, const uint8_t *ck, size_t cklen, int action);
 
 /* Build one response for query q (raw bytes msg) according to plan; returns serial */
 static uint32_t srv_build(int srvidx, int fd, const sdns_query_t *q, const srv_plan_t *pl, sdns_out_t *o, int txidx,
@@ -355,6 +356,9 @@ static uint32_t srv_build(int srvidx, int fd, const sdns_query_t *q, const srv_p
     }
     sdns_opt(o, 1232, ottl, cklen ? ck : NULL, cklen);
   }
+  if (serial && srv_cookie_built_hook) {
+    srv_cookie_built_hook(serial, q, with_opt ? ck : NULL, with_opt ? cklen : 0, action);
+  }
   if (serial) {
     sim_pktinfo[serial - 1].srv_cookie = (with_opt && cklen > 8);
     sim_pktinfo[serial - 1].rcode = (action == SA_BADCOOKIE) ? 23 : rcode;
@@ -448,10 +452,9 @@ static void srv_receive(int srvidx, int fd, int is_tcp, const uint8_t *msg, size
     snprintf(tx->qname_case, sizeof(tx->qname_case), "%s", q.qname_case);
     tx->lib_timeout_after_us = -1;
     tx->rule_idx             = -1;
-    memcpy(tx->local_addr, vsock[fd].family == AF_INET ? sim_cfg.local4 : sim_cfg.local6,
-           vsock[fd].family == AF_INET ? 4 : 16);
+    memcpy(tx->local_addr, vsock[fd].local, 16);
   }
-  vh_trace("srv%d rx %s fd %d id %u q '%s' type %u opt %d cookie %d(len %zu)", srvidx, is_tcp ? "tcp" : "udp", fd, q.id,
+  vh_trace("t=%lldms srv%d rx %s fd %d id %u q '%s' type %u opt %d cookie %d(len %zu)", (long long)((sim_now_us % 1000000000000LL) / 1000), srvidx, is_tcp ? "tcp" : "udp", fd, q.id,
            q.qname_case, q.qtype, q.has_opt, q.has_cookie, q.cookie_len);
   if (!q.ok) {
     /* the library transmitted something our decoder cannot read as a query */
